@@ -569,7 +569,7 @@ def c07_call(X, pre, args_text, post=""):
     k, t = O.run_parse(X, src, "exec")
     if k != "ok":
         return {"kind": "call-macro-rejected", "observed": [k, O.exc_sig(t) if isinstance(t, BaseException) else None], "expected": want, "source": src}
-    calls = sorted(_find_calls(t, "call_macro"), key=lambda c: (c.lineno, c.col_offset))
+    calls = sorted(_find_calls(t, "call_macro"), key=lambda c: (c.end_lineno, c.end_col_offset))   # by END: chained calls share their start
     n_expected = 1 + pre.count("!(") + post.count("!(") + sum(a.count("!(") for a in ()) 
     if len(calls) != n_expected:
         return {"kind": "call-macro-count", "observed": len(calls), "expected": n_expected, "source": src}
